@@ -165,7 +165,7 @@ def _live(case: Dict[str, Any], res: CaseResult) -> None:
         coros = [b.dag(i) for i in range(n)]
         return await asyncio.gather(sibling(), *coros, return_exceptions=True)
 
-    ex = sched.Exec("free")
+    ex = sched.Exec("free", watchdog=False)  # the probes have their own bounded waits
     with ex:
         vals = asyncio.run(main())
     timer.cancel()
